@@ -219,7 +219,7 @@ func (s *Sys) auditNodes(norm bool) string {
 }
 
 // auditFast renders the persisted fast index: af(<label>;[k=v,...])
-func (s *Sys) auditFast() string {
+func (s *Sys) auditFast(withVersions bool) string {
 	it, err := s.db.Iterator([]byte{'f'}, []byte{'g'})
 	if err != nil {
 		return "err"
@@ -238,7 +238,11 @@ func (s *Sys) auditFast() string {
 			parts = append(parts, hex.EncodeToString(k[1:])+"=BAD")
 			continue
 		}
-		parts = append(parts, fmt.Sprintf("%s=%s@%d", hex.EncodeToString(k[1:]), hex.EncodeToString(v), ver))
+		if withVersions {
+			parts = append(parts, fmt.Sprintf("%s=%s@%d", hex.EncodeToString(k[1:]), hex.EncodeToString(v), ver))
+		} else {
+			parts = append(parts, hex.EncodeToString(k[1:])+"="+hex.EncodeToString(v))
+		}
 	}
 	label, _ := s.db.Get([]byte("mstorage_version"))
 	if len(label) == 0 {
